@@ -369,6 +369,14 @@ LIB_HEADER = ("// generated by /verif (C19): hostile naming contexts, no_std\n#!
 
 def collect_cases(seed, n, cap):
     """hostile-named cases produced by the other properties' generators"""
+    S.ALLOW_NON_EXHAUSTIVE = False   # the values are built in the binary crates, the definitions live in the library
+    try:
+        return _collect_cases(seed, n, cap)
+    finally:
+        S.ALLOW_NON_EXHAUSTIVE = True
+
+
+def _collect_cases(seed, n, cap):
     gens = [("eq", c02.gen_case, c02.judge, True), ("ord", c03.gen_case, c03.judge, True),
             ("hash", c05.gen_case, c05.judge, True), ("dbg", c06.gen_case, c06.judge, True),
             ("clone", c07.gen_case, c07.judge, True), ("into", c10.gen_case, c10.judge, True)]
@@ -407,7 +415,7 @@ def split_case(c, ctx):
     taken = set(IDENT_RE.findall(c.text))
     lib = ("pub mod %s {\npub mod h {\n%s%s%s}\npub use self::h::%s;\n%smod support {\n#[allow(unused_imports)]\n"
            "use super::h::*;\nuse ::verif_std::string::String;\n%s}\n}\n"
-           % (c.cid, context(ctx, taken), c.text, "".join(td.extra_items), td.name,
+           % (c.cid, context(ctx, taken), c.text, "".join(td.extra_items) + BH.decoys(td), td.name,
               "pub use self::h::dflt_value;\n" if td.extra_items else "", S.emit_fp(td)))
     glue = c.glue
     body = ("#[allow(unused_imports)]\nuse ::c19::%s::*;\n" % c.cid + S.emit_mk(td, c.vals) + glue +
